@@ -1235,11 +1235,12 @@ func (r *Raft) election() {
 		time.Since(r.lastContact) < r.options.electionTimeout {
 		return
 	}
-	if r.state == Follower {
+	// An election that was not won within an election timeout is started over
+	// with a prevote. Otherwise a candidate that cannot reach a majority would
+	// increase its term on every timeout and depose the leader once it can be
+	// reached again.
+	if r.state == Follower || r.state == Candidate {
 		r.becomePreCandidate()
-	}
-	if r.state == Candidate {
-		r.becomeCandidate()
 	}
 
 	r.sendRequestVoteToPeers()
@@ -1319,12 +1320,11 @@ func (r *Raft) sendRequestVote(id string, address string, votes *int, prevote bo
 	}
 
 	// If this is a prevote and a majority of the cluster respond with success to this node's
-	// vote requests, become a candidate.
+	// vote requests, become a candidate and start the real election right away so that it
+	// does not have to wait until the election ticker goes off again.
 	if r.hasQuorum(*votes) && r.state == PreCandidate {
-		// Signal to the election loop to start an election so that the real election
-		// does not have to wait until the election ticker goes off again.
-		r.state = Candidate
-		r.electionCond.Broadcast()
+		r.becomeCandidate()
+		r.sendRequestVoteToPeers()
 	}
 
 	// If this an election and a majority of the cluster vote for this node, become the leader.
